@@ -50,8 +50,10 @@ func VerifBuildPNG(k int) (in []byte, ihdr []byte) {
 	return in, ihdr
 }
 
+var verifC05K = 3
+
 func VerifHarness_C05_PNG() {
-	k := verifChoice(3)
+	k := verifChoice(verifC05K)
 	in, ihdr := VerifBuildPNG(k)
 	md, _, err := Load(bytes.NewReader(in))
 	verifAssert(err == nil, "well-formed PNG rejected")
